@@ -78,6 +78,9 @@ pub struct Variant {
     /// (new name, original name) for rules duplicated under a new name
     pub dups: Vec<(String, String)>,
     pub what: String,
+    /// or-alternatives were permuted: PASS short-circuits an or-line, so whether an erroring
+    /// alternative is reached may legitimately depend on the order
+    pub disjuncts_permuted: bool,
 }
 
 /// A seeded transformation of the issue order / multiplicity.
@@ -156,7 +159,8 @@ fn transform(r: &mut Rng, p0: &Prog) -> Variant {
     if what.is_empty() {
         what.push("identity");
     }
-    Variant { text: p.print(), dups, what: what.join(", ") }
+    let disjuncts_permuted = what.contains(&"disjuncts permuted");
+    Variant { text: p.print(), dups, what: what.join(", "), disjuncts_permuted }
 }
 
 /// All permutations of 0..n (n <= 4), else `cap` sampled ones.
@@ -241,8 +245,15 @@ fn run_variants(w: &mut Work, rels: &[String], memo: Option<MemoSpec>, rep: &mut
 }
 
 /// Compare a variant with the identity run. None = agree (or not comparable).
-fn compare(base: &Outcome, var: &Outcome, dups: &[(String, String)], rep: &mut Report) -> Option<String> {
+fn compare(base: &Outcome, var: &Outcome, dups: &[(String, String)], symmetric_errors: bool, rep: &mut Report) -> Option<String> {
     let ok = |c: &str| c == "exit:0" || c == "exit:19";
+    // Conjunctions evaluate every line and errors are never memoised, so with the or-lines
+    // left alone and no eager resolution an evaluation error cannot depend on the order:
+    // an error on one side only means some reference saw something the other did not.
+    if symmetric_errors && ((ok(&base.class) && var.class == "err:255") || (base.class == "err:255" && ok(&var.class))) {
+        rep.count("compared", 1);
+        return Some(format!("error asymmetry {} -> {}", base.class, var.class));
+    }
     if !ok(&base.class) || !ok(&var.class) {
         // the proviso: no ordering may raise an evaluation error
         rep.count("skipped.evaluation_error", 1);
@@ -338,8 +349,8 @@ fn gen_c04(r: &mut Rng) -> (J, Prog) {
     (d, p)
 }
 
-fn scn_json(files: &[FileSpec], variant: &str, dups: &[(String, String)], memo: &Option<MemoSpec>) -> Value {
-    json!({"files": files_to_json(files), "variant": variant, "dups": dups, "memo": memo.as_ref().map(|m| json!({"seed": m.seed, "rule_miss": m.rule_miss, "var_miss": m.var_miss, "eager": m.eager}))})
+fn scn_json(files: &[FileSpec], variant: &str, dups: &[(String, String)], memo: &Option<MemoSpec>, symmetric_errors: bool) -> Value {
+    json!({"files": files_to_json(files), "variant": variant, "dups": dups, "symmetric_errors": symmetric_errors, "memo": memo.as_ref().map(|m| json!({"seed": m.seed, "rule_miss": m.rule_miss, "var_miss": m.var_miss, "eager": m.eager}))})
 }
 
 fn replay_generic(w: &mut Work, v: &Value) -> Vec<Violation> {
@@ -351,7 +362,8 @@ fn replay_generic(w: &mut Work, v: &Value) -> Vec<Violation> {
     let mut rep = Report::default();
     let (b, _) = run_variants(w, &["rules/v0.guard".to_string()], None, &mut rep);
     let (o, _) = run_variants(w, &[variant], memo, &mut rep);
-    match compare(&b[0], &o[0], &dups, &mut rep) {
+    let sym = v.get("symmetric_errors").and_then(|b| b.as_bool()).unwrap_or(false);
+    match compare(&b[0], &o[0], &dups, sym, &mut rep) {
         Some(d) => vec![Violation { signature: format!("verdict/{}", d.split(' ').next().unwrap_or("")), what: d, replay: Value::Null, shrink_execs: 0, minimised: false }],
         None => vec![],
     }
@@ -363,6 +375,7 @@ fn sig_of(diff: &str, kind: &str) -> String {
     let a = it.next().unwrap_or("");
     let b = it.next().unwrap_or("");
     let head = if a == "exit" { "exit".to_string() } else { format!("{a}-{b}") };
+    // ("error asymmetry .." -> error-asymmetry)
     format!("{kind}/{head}")
 }
 
@@ -438,7 +451,7 @@ impl Check for C04 {
                         }
                     }
                 }
-                variants.push(Variant { text, dups: vec![], what: "rule order permuted (exhaustive level)".into() });
+                variants.push(Variant { text, dups: vec![], what: "rule order permuted (exhaustive level)".into(), disjuncts_permuted: false });
             }
         } else if level == 1 {
             // the lines of one rule body
@@ -448,7 +461,7 @@ impl Check for C04 {
                 for perm in perms(&mut r, nl, 24) {
                     let mut q = p.clone();
                     q.rules[k].body.lines = perm.iter().map(|i| p.rules[k].body.lines[*i].clone()).collect();
-                    variants.push(Variant { text: q.print(), dups: vec![], what: "lines of one rule body permuted (exhaustive level)".into() });
+                    variants.push(Variant { text: q.print(), dups: vec![], what: "lines of one rule body permuted (exhaustive level)".into(), disjuncts_permuted: false });
                 }
             }
         } else {
@@ -467,7 +480,7 @@ impl Check for C04 {
                 for perm in perms(&mut r, na, 24) {
                     let mut q = p.clone();
                     q.rules[ri].body.lines[li].alts = perm.iter().map(|i| p.rules[ri].body.lines[li].alts[*i].clone()).collect();
-                    variants.push(Variant { text: q.print(), dups: vec![], what: "alternatives of one or-line permuted (exhaustive level)".into() });
+                    variants.push(Variant { text: q.print(), dups: vec![], what: "alternatives of one or-line permuted (exhaustive level)".into(), disjuncts_permuted: true });
                 }
             }
         }
@@ -478,7 +491,7 @@ impl Check for C04 {
         for _ in 0..ncomp {
             variants.push(transform(&mut r, &p));
         }
-        variants.push(Variant { text: p.print(), dups: vec![], what: "identity".into() });
+        variants.push(Variant { text: p.print(), dups: vec![], what: "identity".into(), disjuncts_permuted: false });
         let mut rels = Vec::new();
         for (i, v) in variants.iter().enumerate() {
             let rel = format!("rules/v{}.guard", i + 1);
@@ -505,7 +518,11 @@ impl Check for C04 {
             }
             for (i, o) in outs.iter().enumerate() {
                 rep.classes.push(format!("{}|p{}|{}", variants[i].what, pmiss, o.class));
-                if let Some(diff) = compare(&base[0], o, &variants[i].dups, &mut rep) {
+                // C04's statement carries the proviso "provided no ordering raises an evaluation
+                // error" (e.g. which definition of a multiply-defined rule is reached first decides
+                // whether a reference cycle is entered): errors are never compared here
+                let sym = false;
+                if let Some(diff) = compare(&base[0], o, &variants[i].dups, sym, &mut rep) {
                     let kind = if *pmiss == 0 { "order" } else { "memo" };
                     let sig = sig_of(&diff, kind);
                     if done.contains(&sig) {
@@ -517,7 +534,7 @@ impl Check for C04 {
                     let (b2, _) = run_variants(w, &["rules/v0.guard".to_string()], None, &mut crep);
                     let (o2, _) = run_variants(w, &[rels[i].clone()], memo.clone(), &mut crep);
                     rep.execs += crep.execs;
-                    let again = compare(&b2[0], &o2[0], &variants[i].dups, &mut crep);
+                    let again = compare(&b2[0], &o2[0], &variants[i].dups, sym, &mut crep);
                     if again.as_ref().map(|d| sig_of(d, kind)) != Some(sig.clone()) {
                         rep.count("harness.unconfirmed_findings", 1);
                         continue;
@@ -526,7 +543,7 @@ impl Check for C04 {
                     rep.violations.push(Violation {
                         signature: sig,
                         what: format!("{} [{}; rule-memo forced-miss p={}/256]: {}", "verdict changed", variants[i].what, pmiss, diff),
-                        replay: scn_json(&keep, &rels[i], &variants[i].dups, &memo),
+                        replay: scn_json(&keep, &rels[i], &variants[i].dups, &memo, sym),
                         shrink_execs: 0,
                         minimised: true,
                     });
@@ -722,6 +739,24 @@ fn make_var_heavy(r: &mut Rng, p: &mut Prog, d: &J) {
             }
         }
     }
+    // a long dependency chain of variables in one scope, referenced at several depths in
+    // increasing order (each reference finds the previous links memoised)
+    if r.chance(1, 5) {
+        let n = 70 + r.usize(25);
+        let k0 = key(r);
+        p.lets.push(Let { name: "ch0".into(), val: Arg::Query(Query { some: false, parts: vec![Part::Key(k0)] }) });
+        for i in 1..=n {
+            p.lets.push(Let { name: format!("ch{i}"), val: Arg::Query(Query { some: false, parts: vec![Part::Var(format!("ch{}", i - 1))] }) });
+        }
+        let mut lines = Vec::new();
+        let mut i = 1;
+        while i < n {
+            lines.push(Line { alts: vec![var_clause(&format!("ch{i}"), r)] });
+            i += 20 + r.usize(20);
+        }
+        lines.push(Line { alts: vec![var_clause(&format!("ch{n}"), r)] });
+        p.rules.push(Rule { name: "probe_chain".into(), when: vec![], body: Body { lets: vec![], lines } });
+    }
     // unused variables; some definitions would raise an error if they were ever evaluated
     let nunused = r.usize(3);
     for i in 0..nunused {
@@ -812,7 +847,7 @@ impl Check for C15 {
             Tier::Quick => 4,
             Tier::Thorough => 10,
         };
-        let mut variants = vec![Variant { text: p.print(), dups: vec![], what: "identity".into() }];
+        let mut variants = vec![Variant { text: p.print(), dups: vec![], what: "identity".into(), disjuncts_permuted: false }];
         for _ in 0..nvar {
             variants.push(transform(&mut r, &p));
         }
@@ -837,7 +872,8 @@ impl Check for C15 {
             let (outs, _fin) = run_variants(w, &rels, memo.clone(), &mut rep);
             for (i, o) in outs.iter().enumerate() {
                 rep.classes.push(format!("{}|p{}|q{}|{}", variants[i].what, pm, qe, o.class));
-                if let Some(diff) = compare(&base[0], o, &variants[i].dups, &mut rep) {
+                let sym = !variants[i].disjuncts_permuted && *qe == 0;
+                if let Some(diff) = compare(&base[0], o, &variants[i].dups, sym, &mut rep) {
                     let kind = if *pm == 0 && *qe == 0 { "order" } else if *qe == 0 { "var-memo" } else if *pm == 0 { "eager" } else { "var-memo+eager" };
                     let sig = sig_of(&diff, kind);
                     if done.contains(&sig) {
@@ -848,7 +884,7 @@ impl Check for C15 {
                     let (b2, _) = run_variants(w, &["rules/v0.guard".to_string()], None, &mut crep);
                     let (o2, _) = run_variants(w, &[rels[i].clone()], memo.clone(), &mut crep);
                     rep.execs += crep.execs;
-                    let again = compare(&b2[0], &o2[0], &variants[i].dups, &mut crep);
+                    let again = compare(&b2[0], &o2[0], &variants[i].dups, sym, &mut crep);
                     if again.as_ref().map(|d| sig_of(d, kind)) != Some(sig.clone()) {
                         rep.count("harness.unconfirmed_findings", 1);
                         continue;
@@ -857,7 +893,7 @@ impl Check for C15 {
                     rep.violations.push(Violation {
                         signature: sig,
                         what: format!("verdict changed [{}; variable-memo forced-miss p={}/256, eager q={}/256]: {}", variants[i].what, pm, qe, diff),
-                        replay: scn_json(&keep, &rels[i], &variants[i].dups, &memo),
+                        replay: scn_json(&keep, &rels[i], &variants[i].dups, &memo, sym),
                         shrink_execs: 0,
                         minimised: true,
                     });
